@@ -67,8 +67,13 @@ def reader_reads(p):
     for e in p.events:
         if e.kind == 'read' and e.under(VNEXT):
             out.append((e, e.data['data'], e.data['size']))
-        elif e.kind == 'leave' and e.data['callee'] == 'mciipm.Unblock1014.read' and len(e.stack) >= 2 and e.stack[-2] == VNEXT:
-            out.append((e, e.data['result'], None))
+        elif e.kind == 'leave' and e.data['callee'] == 'mciipm.Unblock1014.read' and len(e.stack) >= 2:
+            from ..interp import ANCHORED
+            outer = e.stack[:-1]
+            if VNEXT in outer:
+                i = len(outer) - 1 - outer[::-1].index(VNEXT)
+                if all(f not in ANCHORED for f in outer[i + 1:]):
+                    out.append((e, e.data['result'], None))
     return out
 
 
